@@ -23,8 +23,11 @@ META = {
         "Proved for ALL atom counts, bond lists, electronegativity functions, damping/scale factors and cycle counts >= 1: "
         "equilibrate conserves the sum of the entry (formal) charges, and relabelling the atoms permutes the result "
         "exactly; every radius returned is a positive zap9/Bondi entry; assign_parameters end to end. The clause 'ligand "
-        "parameters only on ligand atoms, each written once' is REFUTED for main.non_trivial as coded (finding C16-F4: "
-        "transfer by atom name to every HETATM-led residue) and proved under the exact input guard."
+        "parameters only on ligand atoms, each written once' is proved for ALL residue lists for the ligand loop of "
+        "main.non_trivial as coded after the repair of finding C16-F4: only residues selected by the loop's condition "
+        "(MOL2 residue name, or - placeholder name - exactly the MOL2 heavy atoms) are touched, no atom is written twice, "
+        "every MOL2-named atom of a selected residue is written exactly once with the MOL2 parameters. The refutation "
+        "that is kept (C16_transfer_old_loop_refuted) is about the PRE-FIX loop definition only."
     ),
     "level_note": (
         "Trusted: Coq kernel + vm_compute; the hand-written model (tied by correspondence, not by a Python semantics); "
@@ -43,9 +46,10 @@ THEOREMS = [
     "C16_radius_positive",
     "C16_supported_complete",
     "C16_assign_parameters_sound",
-    "C16_transfer_only_ligand_refuted",
-    "C16_transfer_only_ligand_partial",
-    "C16_transfer_guard_exact",
+    "C16_transfer_only_ligand",
+    "C16_transfer_other_residues_untouched",
+    "C16_transfer_other_residues_untouched_fallback",
+    "C16_transfer_old_loop_refuted",
     "C16_formal_charge_equivariant",
     "C16_nonvacuous",
 ]
@@ -532,43 +536,106 @@ def extract_ligand_loop():
 
     src = inspect.getsource(pmain.non_trivial).splitlines()
     start = [i for i, l in enumerate(src) if l.strip() == "lig_atoms = []"]
-    end = [i for i, l in enumerate(src) if l.strip() == "matched_atoms += lig_atoms"]
+    end = [i for i, l in enumerate(src) if l.strip().startswith("matched_atoms += ")]
     if len(start) != 1 or len(end) != 1 or end[0] <= start[0]:
-        raise LookupError("ligand loop markers (lig_atoms = [] ... matched_atoms += lig_atoms) not found in main.non_trivial")
+        raise LookupError("ligand loop markers (lig_atoms = [] ... matched_atoms += ...) not found in main.non_trivial")
     head = "\n".join(src[: start[0]])
     if "ligand.assign_parameters()" not in head or "apply_force_field" not in head:
         raise LookupError("ligand loop is no longer preceded by apply_force_field / ligand.assign_parameters()")
     return compile(textwrap.dedent("\n".join(src[start[0] : end[0] + 1])), "<main.non_trivial ligand loop>", "exec")
 
 
+def _describes(lig, atoms):
+    """the residue consists of exactly the MOL2 heavy atoms (+ some of its hydrogens)"""
+    nms = {a[2] for a in atoms}
+    return {nm for nm, _t, h in lig if not h} <= nms <= {nm for nm, _t, _h in lig}
+
+
 def gen_transfer_case(rng):
-    names = ["C1", "C2", "O1", "H1", "H2", "O", "N", "CA", "N1", "NA", "X"]
-    lig = {}
-    for nm in rng.sample(names, rng.randint(1, 5)):
-        lig[nm] = "L" + nm
+    """Residue list + MOL2 ligand for the loop.  Each residue is (name, kind, atoms); kind 'lig' marks the
+    residue(s) the MOL2 file is meant for (ground truth of the generator, independent of how the code selects).
+    mode: named = the ligand residue carries the MOL2 residue name; placeholder = the MOL2 residue name occurs
+    nowhere and the ligand residue has exactly the MOL2 heavy atoms; incomplete = placeholder, a heavy atom
+    missing in the structure (nothing identifies the ligand); 'ambiguous' cases (another residue bears the
+    ligand's name / is atom-for-atom the ligand) are used for the model tie only."""
+    pool = ["C1", "C2", "O1", "H1", "H2", "O", "N", "CA", "N1", "NA", "X", "H3"]
+    picked = rng.sample(pool, rng.randint(1, 6))
+    if all(nm.startswith("H") for nm in picked):
+        picked.append("C9")
+    lig = [[nm, "L" + nm, nm.startswith("H")] for nm in picked]
+    heavy = [nm for nm, _t, h in lig if not h]
+    hyd = [nm for nm, _t, h in lig if h]
+    mode = rng.choice(["named", "named", "named", "placeholder", "placeholder", "incomplete"])
+    lnames = ["LIG"] if mode == "named" else [rng.choice(["UNK", "<1>"])]
+    if mode == "named" and rng.random() < 0.1:
+        lnames.append("LG2")
+    pdb_lig_name = "LIG" if mode == "named" else "KNI"
     rs = []
     aid = 0
-    for _r in range(rng.randint(1, 5)):
-        kind = rng.choice(["prot", "lig", "wat", "het", "mixed"])
-        atoms = []
+    kinds = [rng.choice(["prot", "lig", "wat", "het", "mixed", "copy"]) for _ in range(rng.randint(1, 5))]
+    if "lig" not in kinds and rng.random() < 0.8:
+        kinds.insert(rng.randrange(len(kinds) + 1), "lig")
+    for kind in kinds:
         if kind == "prot":
+            rname = rng.choice(["ALA", "SER", "UNK"])
             nms, het = rng.sample(["N", "CA", "C", "O", "H", "CB"], rng.randint(1, 4)), [False] * 4
         elif kind == "lig":
-            nms = list(lig)[: rng.randint(1, len(lig))] + (["ZZ"] if rng.random() < 0.3 else [])
+            rname = pdb_lig_name if rng.random() < 0.9 or mode != "named" else "LG2"
+            if mode == "named":
+                nms = rng.sample(picked, rng.randint(1, len(picked))) + (["ZZ"] if rng.random() < 0.3 else [])
+            else:
+                nms = heavy + rng.sample(hyd, rng.randint(0, len(hyd)))
+                if mode == "incomplete":
+                    nms.remove(rng.choice(heavy))
+                    if not nms:
+                        nms = ["ZZ"]
+                rng.shuffle(nms)
             het = [True] * len(nms)
+            if rng.random() < 0.05:
+                het[rng.randrange(len(het))] = False
         elif kind == "wat":
+            rname = "HOH"
             nms, het = ["O", "H1", "H2"][: rng.randint(1, 3)], [True] * 3
         elif kind == "het":
-            nms, het = rng.sample(names, rng.randint(1, 4)), [True] * 4
+            rname = rng.choice(["XYZ", "GOL", "ZN"])
+            nms, het = rng.sample(pool, rng.randint(1, 4)), [True] * 4
+        elif kind == "copy":  # another hetero group with (a subset of) the ligand's atom names
+            rname = rng.choice(["XYZ", "XYZ", "XYZ", "LIG", "KNI"])
+            nms = rng.sample(picked, rng.randint(1, len(picked)))
+            het = [True] * len(nms)
         else:
-            nms = rng.sample(names, rng.randint(2, 5))
+            rname = "MIX"
+            nms = rng.sample(pool, rng.randint(2, 5))
             het = [rng.random() < 0.6 for _ in nms]
+        atoms = []
         for nm, h in zip(nms, het):
-            ffhit = {"prot": 0.95, "lig": 0.05, "wat": 0.9, "het": 0.3, "mixed": 0.5}[kind] > rng.random()
-            atoms.append((aid, h, nm, f"F{aid}" if ffhit else None))
+            ffhit = {"prot": 0.95, "lig": 0.25, "wat": 0.9, "het": 0.3, "mixed": 0.5, "copy": 0.3}[kind] > rng.random()
+            atoms.append([aid, h, nm, f"F{aid}" if ffhit else None])
             aid += 1
-        rs.append((kind == "lig", atoms))
-    return {"lig": lig, "rs": rs}
+        rs.append([rname, kind, atoms])
+    return {"mode": mode, "lnames": lnames, "lig": lig, "rs": rs}
+
+
+def used_lnames(case):
+    """residue names carried by the MOL2 atoms (atom k carries lnames[k], the rest lnames[0])"""
+    return case["lnames"][: max(1, min(len(case["lnames"]), len(case["lig"])))]
+
+
+def transfer_truth(case):
+    """Ground truth from the generator's labels, not from the code.  Returns (unambiguous, expected):
+    unambiguous = no residue other than the ligand bears a MOL2 residue name, the PDB name of the ligand, or
+    is atom for atom what the MOL2 file describes (then nothing but the ligand may be touched);
+    expected = indices of ligand residues that must be parameterised (named like the MOL2 residue, or - if no
+    residue is - exactly described by the MOL2 file, or a namesake of such a ligand residue)."""
+    lig, lnames, rs = case["lig"], used_lnames(case), case["rs"]
+    lig_pdb_names = {r[0] for r in rs if r[1] == "lig"}
+    unamb = not any(r[1] != "lig" and (r[0] in lnames or r[0] in lig_pdb_names or _describes(lig, r[2])) for r in rs)
+    if any(r[0] in lnames for r in rs):
+        expected = {k for k, r in enumerate(rs) if r[1] == "lig" and r[0] in lnames}
+    else:
+        found = {r[0] for r in rs if r[1] == "lig" and _describes(lig, r[2])}
+        expected = {k for k, r in enumerate(rs) if r[1] == "lig" and r[0] in found}
+    return unamb, expected
 
 
 def transfer_impl(code, case):
@@ -577,7 +644,7 @@ def transfer_impl(code, case):
     residues = []
     matched, missing = [], []
     tag = {}
-    for _islig, atoms in case["rs"]:
+    for rname, _kind, atoms in case["rs"]:
         objs = []
         for aid, het, nm, ff in atoms:
             v = None
@@ -587,12 +654,13 @@ def transfer_impl(code, case):
             a = _Obj(aid=aid, type="HETATM" if het else "ATOM", name=nm, radius=v, ffcharge=v)
             (matched if ff is not None else missing).append(a)
             objs.append(a)
-        residues.append(_Obj(atoms=objs, name="RES", res_seq=1))
+        residues.append(_Obj(atoms=objs, name=rname, res_seq=1))
     ligatoms = {}
-    for k, (nm, t) in enumerate(case["lig"].items()):
+    for k, (nm, t, is_h) in enumerate(case["lig"]):
         v = -1.0 - k
         tag[v] = t
-        ligatoms[nm] = _Obj(radius=v, charge=v)
+        ligatoms[nm] = _Obj(radius=v, charge=v, name=nm, type="H" if is_h else "C.3",
+                            res_name=case["lnames"][k] if k < len(case["lnames"]) else case["lnames"][0])
     ns = {
         "biomolecule": _Obj(residues=residues),
         "ligand": _Obj(atoms=ligatoms),
@@ -606,13 +674,59 @@ def transfer_impl(code, case):
 
 
 def transfer_term(case):
-    lig = core.coq_list([f"({core.coq_string(k)}, {core.coq_string(v)})" for k, v in case["lig"].items()])
+    # residue names actually carried by MOL2 atoms (the code builds a set from the atoms)
+    lnames = core.coq_list([core.coq_string(x) for x in used_lnames(case)])
+    heavy = core.coq_list([core.coq_string(nm) for nm, _t, h in case["lig"] if not h])
+    lig = core.coq_list([f"({core.coq_string(nm)}, {core.coq_string(t)})" for nm, t, _h in case["lig"]])
     rs = core.coq_list([
-        "(" + ("true" if islig else "false") + ", " + core.coq_list([
+        "(" + core.coq_string(rname) + ", " + core.coq_list([
             f"({aid}, {'true' if het else 'false'}, {core.coq_string(nm)}, {'Some ' + core.coq_string(ff) if ff is not None else 'None'})"
             for aid, het, nm, ff in atoms]) + ")"
-        for islig, atoms in case["rs"]])
-    return f"run_transfer {lig} {rs}"
+        for rname, _kind, atoms in case["rs"]])
+    return f"run_transfer {lnames} {heavy} {lig} {rs}"
+
+
+def oracle_transfer(ctx, case, out):
+    """Model-independent reading of what the repo's loop text did with a generated residue list: the generator
+    knows which residue is the ligand (kind 'lig'); no use of the Coq model and none of the code's selection."""
+    if out.startswith("EXC"):
+        ctx.fail({"site": LIG_SITE, "condition": "loop-raises", "level": "loop-text"}, out, {"transfer": case})
+        return
+    unamb, expected = transfer_truth(case)
+    written = [w.split("=") for w in out.split("|")[0].split(";") if w]
+    ids = [int(i) for i, _t in written]
+    got = {}
+    for i, t in written:
+        got.setdefault(int(i), []).append(t)
+    ligtag = {nm: t for nm, t, _h in case["lig"]}
+    sig0 = {"site": LIG_SITE, "victim_record": "HETATM", "match": "atom-name", "level": "loop-text"}
+    bad = []
+    if len(ids) != len(set(ids)):
+        dup = sorted(i for i in set(ids) if ids.count(i) > 1)
+        bad.append(("atom-written-twice", f"atom ids {dup} appended to matched_atoms twice"))
+    for k, (rname, kind, atoms) in enumerate(case["rs"]):
+        seen_atom_rec = False
+        for aid, het, nm, ff in atoms:
+            if not het:
+                seen_atom_rec = True
+            if kind != "lig" and unamb:
+                exp = [ff] if ff is not None else []
+                if sorted(set(got.get(aid, []))) != exp:
+                    bad.append(("non-ligand-residue-receives-ligand-parameters",
+                                f"{rname} atom {nm} (id {aid}, force field {ff}) written as {got.get(aid)}"))
+            if k in expected and not seen_atom_rec and nm in ligtag:
+                if got.get(aid) != [ligtag[nm]]:
+                    bad.append(("ligand-atom-not-written-once-with-mol2-parameters",
+                                f"{rname} atom {nm} (id {aid}) written as {got.get(aid)}, MOL2 {ligtag[nm]}"))
+    nontrivial = unamb and any(k == "lig" for _n, k, _a in case["rs"]) and len(case["rs"]) >= 2
+    ctx.evaluated(("transfer", core.sha(case)), nontrivial)
+    ctx.count("search:loop-" + case["mode"] + ("" if unamb else "-ambiguous"))
+    done = set()
+    for cond, txt in bad:
+        if cond in done:
+            continue
+        done.add(cond)
+        ctx.fail(dict(sig0, condition=cond), txt, {"transfer": case})
 
 
 # --------------------------------------------------------------------------
@@ -770,7 +884,7 @@ def oracle_complex(ctx, d, cx):
     Baseline = the same complex run without --ligand (non-ligand atoms keep the
     force field's parameters there); ligand parameters = the real
     assign_parameters() on the MOL2 file alone."""
-    ligres = ("LIG", "L", "400")
+    ligres = tuple(cx.get("ligres") or ("LIG", "L", "400"))
     mol2 = d / f"{cx['tag']}.mol2"
     mol2.write_text(cx["mol2"])
     lig = impl_read(cx["mol2"])
@@ -778,7 +892,8 @@ def oracle_complex(ctx, d, cx):
     ligp = {nm: (a.charge, a.radius) for nm, a in lig.atoms.items()}
     st0, base_rows, _ = run_pdb2pqr(d, cx["pdb"], None, cx["tag"] + "_base")
     st1, rows, diag = run_pdb2pqr(d, cx["pdb"], str(mol2), cx["tag"])
-    case = {"tag": cx["tag"], "pdb": cx["pdb"], "mol2": cx["mol2"], "status": st1}
+    case = {"tag": cx["tag"], "pdb": cx["pdb"], "mol2": cx["mol2"], "status": st1, "ligres": list(ligres),
+            "lig_written": cx.get("lig_written", True)}
     ctx.evaluated(("complex", cx["tag"], core.sha(cx["pdb"])), True)
     ctx.count("complex:" + cx["tag"].split("-")[0])
     if st0 != "ok":
@@ -832,8 +947,9 @@ def oracle_complex(ctx, d, cx):
         for k in base:
             if k not in seen and not is_lig(k):
                 findings.append(({"site": "main.non_trivial", "condition": "non-ligand-atom-lost-by-ligand-option"}, f"{k} missing with --ligand"))
-        # ligand atoms: exactly once, with the MOL2 parameters
-        for nm in cx["lig_pdb_names"]:
+        # ligand atoms: exactly once, with the MOL2 parameters (not asked when nothing identifies the ligand:
+        # placeholder MOL2 residue name and a heavy atom missing in the structure)
+        for nm in cx["lig_pdb_names"] if cx.get("lig_written", True) else []:
             k = ligres + (nm,)
             lst = seen.get(k, [])
             if nm in ligp:
@@ -866,67 +982,89 @@ def oracle_complex(ctx, d, cx):
         ctx.notes.append(f"complex {cx['tag']} expected clean: {findings[0][1]}")
 
 
-def build_complexes(rng, thorough):
+ET_TYPES = ["C.3", "C.3", "O.3", "H", "H", "H", "H", "H", "H"]
+ET_BONDS = [(0, 1, "1"), (1, 2, "1"), (0, 3, "1"), (0, 4, "1"), (0, 5, "1"), (1, 6, "1"), (1, 7, "1"), (2, 8, "1")]
+AC_TYPES = ["O.co2", "C.2", "O.co2", "C.3", "H", "H", "H"]
+AC_BONDS = [(0, 1, "2"), (1, 2, "2"), (1, 3, "1"), (3, 4, "1"), (3, 5, "1"), (3, 6, "1")]
+CX_SAFE = ["CX1", "CX2", "OX1", "HX1", "HX2", "HX3", "HX4", "HX5", "HX6"]
+CX_CLASH = ["C1", "C2", "O1", "H1", "H2", "H3", "H4", "H5", "H6"]
+
+
+def make_complex(spec):
+    """Complex from a declarative spec (also the format of corpus/C16/*.json "complex" entries):
+    names/types/bonds = the MOL2 ligand; mol2_resname = residue name in the MOL2 file; pdb_resname = name of the
+    ligand residue in the PDB (chain L, 400); pdb_names = its atoms in the PDB (default: all MOL2 atoms);
+    waters = [count, [atom names]]; hetero = [[resn, [atom names]], ...] further hetero groups (chain X, 500+);
+    ions = [[resn, atom name], ...]; lig_written = False when nothing identifies the ligand."""
     prot = protein_lines(4)
+    names = spec["names"]
+    pdbn = spec.get("pdb_names") or names
+    resn = spec.get("pdb_resname", "LIG")
 
-    def lig_block(names, types, bonds, resn="LIG", chain="L", resseq=400, origin=(40.0, 40.0, 40.0), serial=5000, rec="HETATM"):
-        L = []
-        for i, nm in enumerate(names):
-            L.append(het_line(serial + i, nm, resn, chain, resseq, origin[0] + 1.4 * i, origin[1] + 0.9 * (i % 2), origin[2] + 0.5 * (i % 3), rec))
-        return L
+    def block(nms, rn, chain, resseq, origin, serial):
+        return [het_line(serial + i, nm, rn, chain, resseq, origin[0] + 1.4 * i, origin[1] + 0.9 * (i % 2), origin[2] + 0.5 * (i % 3))
+                for i, nm in enumerate(nms)]
 
-    def waters(k, names=("O",), start=600, origin=(60.0, 10.0, 10.0)):
-        L = []
-        for i in range(k):
-            for j, nm in enumerate(names):
-                L.append(het_line(7000 + 3 * i + j, nm, "HOH", "W", start + i, origin[0] + 5.0 * i + 0.8 * j, origin[1] + 0.6 * j, origin[2]))
-        return L
+    coords = [(40.0 + 1.4 * i, 40.0 + 0.9 * (i % 2), 40.0 + 0.5 * (i % 3)) for i in range(len(names))]
+    m2 = mol2_text(spec["types"], [tuple(b_) for b_ in spec["bonds"]], names, coords, resname=spec.get("mol2_resname", "LIG"), resseq=400)
+    extra = []
+    wk, wn = spec.get("waters") or [0, ["O"]]
+    for i in range(wk):
+        for j, nm in enumerate(wn):
+            extra.append(het_line(7000 + 3 * i + j, nm, "HOH", "W", 600 + i, 60.0 + 5.0 * i + 0.8 * j, 10.0 + 0.6 * j, 10.0))
+    for k, (rn, nms) in enumerate(spec.get("hetero") or []):
+        extra += block(nms, rn, "X", 500 + k, (80.0, 40.0 + 12.0 * k, 40.0), 6000 + 100 * k)
+    for k, (rn, nm) in enumerate(spec.get("ions") or []):
+        extra.append(het_line(7100 + k, nm, rn, "Z", 700 + k, 70.0, 30.0 + 6.0 * k, 30.0))
+    pdb = "".join(prot) + "TER\n" + "".join(block(pdbn, resn, "L", 400, (40.0, 40.0, 40.0), 5000)) + "".join(extra) + "END\n"
+    return {"tag": spec["tag"], "pdb": pdb, "mol2": m2, "expect_clean": spec.get("expect_clean", False), "lig_pdb_names": list(pdbn),
+            "ligres": [resn, "L", "400"], "lig_written": spec.get("lig_written", True)}
 
-    def coords(n, origin=(40.0, 40.0, 40.0)):
-        return [(origin[0] + 1.4 * i, origin[1] + 0.9 * (i % 2), origin[2] + 0.5 * (i % 3)) for i in range(n)]
 
+def build_complexes(rng, thorough):
+    """Generated complexes (the minimised regression complexes, incl. the former F4 witnesses, are in corpus/C16)."""
     out = []
-    # ethanol-like ligand, names chosen per case
-    et_types = ["C.3", "C.3", "O.3", "H", "H", "H", "H", "H", "H"]
-    et_bonds = [(0, 1, "1"), (1, 2, "1"), (0, 3, "1"), (0, 4, "1"), (0, 5, "1"), (1, 6, "1"), (1, 7, "1"), (2, 8, "1")]
-    ac_types = ["O.co2", "C.2", "O.co2", "C.3", "H", "H", "H"]
-    ac_bonds = [(0, 1, "2"), (1, 2, "2"), (1, 3, "1"), (3, 4, "1"), (3, 5, "1"), (3, 6, "1")]
 
-    def cx(tag, names, types, bonds, extra, expect_clean, lig_pdb_names=None):
-        m2 = mol2_text(types, bonds, names, coords(len(names)), resname="LIG", resseq=400)
-        pdbn = lig_pdb_names if lig_pdb_names is not None else names
-        pdb = "".join(prot) + "TER\n" + "".join(lig_block(pdbn, None, None)) + "".join(extra) + "END\n"
-        out.append({"tag": tag, "pdb": pdb, "mol2": m2, "expect_clean": expect_clean, "lig_pdb_names": list(pdbn)})
+    def cx(tag, names, types, bonds, expect_clean=True, **kw):
+        out.append(make_complex(dict(tag=tag, names=names, types=types, bonds=bonds, expect_clean=expect_clean, **kw)))
 
-    safe = ["CX1", "CX2", "OX1", "HX1", "HX2", "HX3", "HX4", "HX5", "HX6"]
-    clash = ["C1", "C2", "O1", "H1", "H2", "H3", "H4", "H5", "H6"]
     prot_like = ["CA", "CB", "OG", "HA", "HB2", "HB3", "H", "HN", "HG"]
     # control: no name shared with any other hetero group; waters + an unparameterised ion
-    cx("clean-waters", safe, et_types, et_bonds, waters(2) + [het_line(7100, "ZN", "ZN", "Z", 700, 70.0, 30.0, 30.0)], True)
+    cx("clean-waters", CX_SAFE, ET_TYPES, ET_BONDS, waters=[2, ["O"]], ions=[["ZN", "ZN"]])
     # control: ligand names equal protein atom names (ATOM records are never looked at)
-    cx("clean-proteinnames", prot_like, et_types, et_bonds, waters(1), True)
+    cx("clean-proteinnames", prot_like, ET_TYPES, ET_BONDS, waters=[1, ["O"]])
     # control: charged ligand, waters with explicit hydrogens named differently from the ligand's
-    cx("clean-acetate", ["OA1", "CA1", "OA2", "CA2", "HA1", "HA2", "HA3"], ac_types, ac_bonds, waters(2, ("O", "H1", "H2")), True)
-    # F4: waters take the charges of the ligand's H1/H2
-    cx("f4-waterclash", clash, et_types, et_bonds, waters(2), False)
-    # F4: another hetero group with the same atom names gets the ligand's parameters and is written
-    cx("f4-heterocopy", clash, et_types, et_bonds, lig_block(clash, None, None, resn="XYZ", chain="X", resseq=500, origin=(80.0, 40.0, 40.0), serial=6000), False)
-    # F4: a ligand whose atoms are named like water atoms: every water line is written twice
-    cx("f4-waternames", ["O", "H1", "H2"], ["O.3", "H", "H"], [(0, 1, "1"), (0, 2, "1")], waters(2, ("O", "H1", "H2")), False)
-    # randomised: generated ligand, naming scheme, waters, optional hetero group sharing a subset of names
+    cx("clean-acetate", ["OA1", "CA1", "OA2", "CA2", "HA1", "HA2", "HA3"], AC_TYPES, AC_BONDS, waters=[2, ["O", "H1", "H2"]])
+    # placeholder residue name in the MOL2 file (as in the stored 1HPX-ligand.mol2 / examples/ligands): the ligand is
+    # KNI in the PDB; waters share H1/H2 with it, a smaller hetero group shares C1 C2, an ion is named like an atom
+    cx("placeholder-clash", CX_CLASH, ET_TYPES, ET_BONDS, mol2_resname="UNK", pdb_resname="KNI", waters=[2, ["O", "H1", "H2"]],
+       hetero=[["GOL", ["C1", "C2"]]], ions=[["O1", "O1"]])
+    # placeholder name and a heavy atom of the ligand missing in the structure: nothing identifies the ligand;
+    # nobody else may take its parameters (the ligand itself is not asked for)
+    cx("placeholder-incomplete", CX_CLASH, ET_TYPES, ET_BONDS, mol2_resname="<1>", pdb_resname="KNI", pdb_names=CX_CLASH[1:],
+       waters=[1, ["O", "H1", "H2"]], hetero=[["XYZ", CX_CLASH[1:5]]], lig_written=False)
+    # randomised: generated ligand, naming scheme, MOL2 residue name, waters, optional hetero group sharing names
     for k in range(16 if thorough else 5):
         g = gen_organic(rng, maxn=10)
         scheme = rng.choice(["safe", "default", "default"])
         names = [f"{t.split('.')[0].upper()[:1]}Q{i}" for i, t in enumerate(g.types)] if scheme == "safe" else default_names(g.types)
-        extra = waters(rng.randint(0, 2), rng.choice([("O",), ("O", "H1", "H2")]))
-        if rng.random() < 0.5:
+        m2res, pdbres = rng.choice([("LIG", "LIG"), ("LIG", "LIG"), ("UNK", "LIG"), ("<1>", "DMP"), ("DMP", "DMP")])
+        hetero = []
+        if rng.random() < 0.6:
             sub = rng.sample(names, rng.randint(1, len(names)))
-            extra += lig_block(sub, None, None, resn="XYZ", chain="X", resseq=500, origin=(80.0, 40.0, 40.0), serial=6000)
-        cx(f"random-{scheme}-{k}", names, g.types, g.bonds, extra, False)
+            heavy = [n for n, t in zip(names, g.types) if t != "H"]
+            if m2res != pdbres and set(heavy) <= set(sub):
+                sub.remove(heavy[0])  # an atom-for-atom copy cannot be told from the ligand without a name
+            if sub:
+                hetero.append(["XYZ", sub])
+        cx(f"random-{scheme}-{'named' if m2res == pdbres else 'placeholder'}-{k}", names, g.types, g.bonds, expect_clean=True, mol2_resname=m2res, pdb_resname=pdbres,
+           waters=[rng.randint(0, 2), rng.choice([["O"], ["O", "H1", "H2"]])], hetero=hetero)
     if thorough:
-        cx("f4-1qbs-names", default_names(et_types), et_types, et_bonds, waters(3), False)
-        cx("clean-nowater", safe, et_types, et_bonds, [], True)
-        cx("f4-partialcopy", clash, et_types, et_bonds, lig_block(clash[:3], None, None, resn="XYZ", chain="X", resseq=500, origin=(80.0, 40.0, 40.0), serial=6000), False)
+        cx("clash-1qbs-names", default_names(ET_TYPES), ET_TYPES, ET_BONDS, waters=[3, ["O"]])
+        cx("clean-nowater", CX_SAFE, ET_TYPES, ET_BONDS)
+        cx("clash-partialcopy", CX_CLASH, ET_TYPES, ET_BONDS, hetero=[["XYZ", CX_CLASH[:3]]])
+        cx("placeholder-heavyonly-copy", CX_CLASH, ET_TYPES, ET_BONDS, mol2_resname="UNK", pdb_resname="KNI",
+           hetero=[["XYZ", CX_CLASH[:2] + ["Q9"]]], waters=[1, ["O", "H1", "H2"]])
     return out
 
 
@@ -942,7 +1080,10 @@ def run(ctx):
         "(b) wild: any of the 23 supported Sybyl types on any multigraph, (c) malformed: unsupported atom/bond types, "
         "(d) the stored MOL2 files; read by the real Mol2Molecule.read. A molecule case is non-trivial when it has >= 2 "
         "atoms and >= 1 bond and assign_parameters succeeds; distinct by (types, bonds). Complex cases: 1QBS residues 1-4 "
-        "+ ligand HETATMs + waters / other hetero groups through main_driver; distinct by PDB text."
+        "+ ligand HETATMs (MOL2 residue name equal to the PDB's, or a placeholder) + waters / other hetero groups / ions "
+        "through main_driver; distinct by PDB text. Loop cases: residue lists (ligand, waters, hetero groups sharing atom "
+        "names, protein residues, force-field hits on any of them) through the source text of the ligand loop, judged by "
+        "the generator's own labelling of the ligand residue; non-trivial when unambiguous, >= 2 residues, one the ligand."
     )
     ok = core.proof_stage(ctx, "C16", THEOREMS, ALLOWED_AXIOMS)
     broken = not ok
@@ -958,6 +1099,7 @@ def run(ctx):
         except Exception as e:  # noqa
             ctx.broke("correspondence-broken", f"stored MOL2 {f.name} unreadable by Mol2Molecule.read", f"{type(e).__name__}: {e}")
     corpus_dir = core.CORPUS / "C16"
+    corpus_complexes, corpus_tcases = [], []
     if corpus_dir.is_dir():
         import json
 
@@ -968,6 +1110,10 @@ def run(ctx):
                 c.setdefault("names", default_names(c["types"]))
                 c["kind"] = "corpus:" + f.stem
                 cases.insert(0, c)
+            elif "complex" in c:
+                corpus_complexes.append(make_complex(c["complex"]))
+            elif "transfer" in c:
+                corpus_tcases.append(c["transfer"])
     for k in range(n_org + n_wild + n_mal):
         g = gen_organic(rng) if k < n_org else gen_wild(rng) if k < n_org + n_wild else gen_malformed(rng)
         types = [case_variant(rng, t) for t in g.types]
@@ -985,7 +1131,7 @@ def run(ctx):
         c["text"] = mol2_text(c["types"], c["bonds"], c["names"])
         c["obs"] = impl_all(c["text"], ncyc=nc)
         qcases.append(c)
-    tcases = [gen_transfer_case(rng) for _ in range(6000 if ctx.thorough else 800)]
+    tcases = corpus_tcases + [gen_transfer_case(rng) for _ in range(6000 if ctx.thorough else 800)]
 
     # ---------------- model evaluation -------------------------------------
     def raw_types(c):
@@ -1085,8 +1231,9 @@ def run(ctx):
                     it = transfer_impl(code, c)
                 except Exception as e:  # noqa
                     it = f"EXC {type(e).__name__}: {e}"
+                c["impl_out"] = it
                 if it != sT:
-                    disagree("Model.Peoe.transfer_loop/written vs the ligand loop of main.non_trivial (source text executed)", f"impl={it} model={sT}", c)
+                    disagree("Model.Peoe.transfer_loop/written vs the ligand loop of main.non_trivial (source text executed)", f"impl={it} model={sT}", {"transfer": {k_: v_ for k_, v_ in c.items() if k_ != "impl_out"}})
 
     # ---------------- search on the implementation --------------------------
     pool = [c for c in cases if not c["obs"].get("read_exc") and not c["obs"].get("exc")]
@@ -1113,8 +1260,20 @@ def run(ctx):
             ctx.evaluated(("rejected", tuple(c["types"]), tuple(c["bonds"])), False)
             ctx.count("search:rejected-by-code")
 
+    # the ligand loop's own text on generated residue lists, read with the generator's ground truth
+    if code is not None:
+        extra_t = [gen_transfer_case(rng) for _ in range(4000)] if broken else []
+        for c in tcases + extra_t:
+            it = c.pop("impl_out", None)
+            if it is None:
+                try:
+                    it = transfer_impl(code, c)
+                except Exception as e:  # noqa
+                    it = f"EXC {type(e).__name__}: {e}"
+            oracle_transfer(ctx, c, it)
+
     d = ctx.scratch_dir()
-    complexes = build_complexes(rng, ctx.thorough)
+    complexes = corpus_complexes + build_complexes(rng, ctx.thorough)
     for cx in complexes:
         oracle_complex(ctx, d, cx)
 
@@ -1124,7 +1283,7 @@ def run(ctx):
             ctx.sample({"molecule": {"groups": c.get("groups"), "types": c["types"], "bonds": c["bonds"][:12]},
                         "sum_formal": sum(c["obs"]["fc"]), "sum_q": sum(c["obs"]["q"]), "q_head": c["obs"]["q"][:4]})
             break
-    for cx in complexes[:1] + complexes[3:5]:
+    for cx in complexes[:2] + complexes[-7:-5]:
         ctx.sample({"complex": cx["tag"], "observed": cx.get("observed")})
     ctx.sample({"obligation": "C16_peoe_conserves: forall ops (QLaws), chi, n, ty, bonds, ch, damp, scale<>0, ncyc<>0: Qsum (equilibrate ...) == Qsum (map ch (seq 0 n))"})
     ctx.trusted += [
@@ -1150,15 +1309,27 @@ def replay(ctx, data):
     if "pdb" in case:
         d = ctx.scratch_dir()
         names = []
+        ligres = case.get("ligres") or ["LIG", "L", "400"]
         for l in case["pdb"].splitlines():
-            if l.startswith("HETATM") and l[17:20] == "LIG" and l[21] == "L":
+            if l.startswith("HETATM") and l[17:20].strip() == ligres[0] and l[21] == ligres[1] and l[22:26].strip() == ligres[2]:
                 names.append(l[12:16].strip())
         before = len(ctx.failures) + sum(ctx.known_hits.values())
-        cx = {"tag": case.get("tag", "replay"), "pdb": case["pdb"], "mol2": case["mol2"], "lig_pdb_names": names}
+        cx = {"tag": case.get("tag", "replay"), "pdb": case["pdb"], "mol2": case["mol2"], "lig_pdb_names": names,
+              "ligres": ligres, "lig_written": case.get("lig_written", True)}
         oracle_complex(ctx, d, cx)
         after = len(ctx.failures) + sum(ctx.known_hits.values())
         print("replay:", "FAILS" if after > before else "passes", "|", cx.get("observed"))
         ctx.cleanup()
+        return 1 if after > before else 0
+    if "transfer" in case:
+        before = len(ctx.failures) + sum(ctx.known_hits.values())
+        try:
+            out = transfer_impl(extract_ligand_loop(), case["transfer"])
+        except Exception as e:  # noqa
+            out = f"EXC {type(e).__name__}: {e}"
+        oracle_transfer(ctx, case["transfer"], out)
+        after = len(ctx.failures) + sum(ctx.known_hits.values())
+        print("replay:", "FAILS" if after > before else "passes", "| loop output (id=parameters ... | missing ids):", out)
         return 1 if after > before else 0
     if "types" in case:
         names = case.get("names") or default_names(case["types"])
